@@ -723,7 +723,7 @@ def replay(pid, path):
         import mbuf
         return mbuf.replay(pid, path)
     lines0 = [l.rstrip("\n") for l in open(path) if l.strip() and not l.startswith("#")]
-    if lines0 and len(lines0[0].split()) >= 4 and lines0[0].split()[3] in ("normal", "refused", "silent", "release", "mute", "garbage", "idle", "ctlflood", "blocking", "garbage2", "longidle", "accblk", "badski", "accfail", "ctl3"):
+    if lines0 and len(lines0[0].split()) >= 4 and lines0[0].split()[3] in ("normal", "refused", "silent", "release", "mute", "garbage", "idle", "ctlflood", "blocking", "garbage2", "longidle", "accblk", "badski", "accfail", "ctl3", "uxfull"):
         import est
         binary = vlib.build(["est_exec"])[0]
         d, batch, _ = est.run(binary, lines0, "replay_%s" % pid, nproc=1)
